@@ -540,7 +540,7 @@ def _relational_units():
         if not q:
             units += [U.Sq(C04.Method(3), g, cases=["d=2/nofile", "d=3/nofile"])]
     P = U.RELABEL
-    units += [U.Boo2d(C10.LthOrder(), P, cases=["unweighted/nofile", "weighted/nofile"]), U.Boo3d(C09.QlmQlm(), P),
+    units += [U.Boo2d(C10.LthOrder(), P, cases=["unweighted/nofile", "weighted/nofile"]), U.Boo3d(C09.QlmQlm(), P, cases=["weighted"] if q else None),
               U.Sq(C04.Method(1), P, cases=["d=2/nofile/species=1", "d=3/nofile/species=1"]), U.Sq(C04.Method(2), P, cases=["d=2/nofile", "d=3/nofile"])]
     X = U.AXES
     units += [
@@ -553,7 +553,7 @@ def _relational_units():
     units += [
         GrTranslation(1, L), GrTranslation(2, L), WriterTranslation("cutoffneighbors", L), WriterTranslation("Nnearests", L),
         U.Boo2d(C10.LthOrder(), L, cases=["unweighted/nofile", "weighted/nofile"]),
-        U.Boo3d(C09.QlmQlm(), L),
+        U.Boo3d(C09.QlmQlm(), L, cases=["unweighted"] if q else None),
         U.Tetra(C17.Tetrahedral(), L),
         U.PairEntropy(C17.ParticleS2(), L, cases=["d=2/savegr", "d=3/s2-only"] if q else None),
         U.DivCurl(C15.DivergenceCurl(), L),
